@@ -199,6 +199,8 @@ HAND_EXPRS = [
     ('a*[Y].t', col(sub('Y', star(F('a'))), S('t'))),
     ('(a[Y])*.t', col(star(sub('Y', F('a'))), S('t'))),
     ('a[Y][Y].t', col(sub('Y', sub('Y', F('a'))), S('t'))),
+    ('a[X][Y].t', col(sub('Y', sub('X', F('a'))), S('t'))),
+    ('((a.b)[X])*[Y].t', col(sub('Y', star(sub('X', col(F('a'), F('b'))))), S('t'))),
     ('(a.b)*.s', col(star(col(F('a'), F('b'))), S('s'))),
     ('s', S('s')),
     ('a.s, b.s,\n c.s', [col(F('a'), S('s')), col(F('b'), S('s')), col(F('c'), S('s'))]),
